@@ -38,7 +38,7 @@ from ..util import influences_result as _influences_result
 
 
 def rule_k1(ctx, rule_id: str = "C12-K1") -> None:
-    ctx.rule(rule_id, "every caller-settable attribute read in the bypassed region flows into the hashed payload", 4)
+    ctx.rule(rule_id, "every caller-settable attribute read in the bypassed region flows into the hashed payload", 4 if rule_id == "C12-K1" else 2)
     prog = ctx.prog
     cls = prog.cls(BAL)
     init = cls.methods["__init__"]
@@ -62,7 +62,20 @@ def rule_k1(ctx, rule_id: str = "C12-K1") -> None:
     for m in cls.methods.values():
         for c in calls(m):
             if isinstance(c.func, ast.Attribute) and c.func.attr == "write_cache" and len(c.args) >= 2 and m.params:
-                for x in ast.walk(c.args[1]):
+                # the payload expression and everything its locals are computed from (backward slice inside m)
+                exprs, seen_n, todo = [c.args[1]], set(), [c.args[1]]
+                while todo:
+                    e_ = todo.pop()
+                    for nm in names_in(e_):
+                        if nm in seen_n or nm in m.params:
+                            continue
+                        seen_n.add(nm)
+                        for _st, v_, _i in assignments_to(m, nm):
+                            if isinstance(v_, ast.Call) and (ctx.res.resolve_callee(v_, m) or ("", ""))[1].endswith(".__run_pipeline"):
+                                continue  # the pipeline result itself: its reads are the region's
+                            exprs.append(v_)
+                            todo.append(v_)
+                for x in [y for e_ in exprs for y in ast.walk(e_)]:
                     if isinstance(x, ast.Attribute) and isinstance(x.value, ast.Name) and x.value.id == m.params[0]:
                         par = getattr(x, "_parent", None)
                         if isinstance(par, ast.Call) and par.func is x:
@@ -347,6 +360,10 @@ def rule_k3(ctx) -> None:
     runf = prog.func(BAL + ".__run_pipeline")
     for w in writes:
         payload = w.args[1]
+        if isinstance(payload, ast.Name):
+            pd_ = assignments_to(rb, payload.id)
+            if len(pd_) == 1 and pd_[0][2] is None:
+                payload = pd_[0][1]
         stored = None
         if isinstance(payload, ast.Dict):
             for k, v in zip(payload.keys, payload.values):
@@ -382,3 +399,69 @@ def check(ctx) -> None:
     rule_k2(ctx)
     rule_k3(ctx)
     rule_k4(ctx)
+    rule_k5(ctx)
+
+
+def rule_k5(ctx) -> None:
+    """An entry is found again by a key computed from the batch (and the settings, K1).  What the pipeline computes for
+    the entry must therefore be a function of that batch alone: the rows handed to __run_pipeline are a copy of the
+    hashed batch, with nothing written into them that the key does not cover (a running row offset, a timestamp)."""
+    ctx.rule("C12-K5", "the rows handed to the pipeline are an unmodified copy of the batch the cache key was computed from", 1)
+    prog = ctx.prog
+    rb = prog.func("synrbl.balancing.Balancer.__rebalance_batch")
+    pcalls = [c for c in calls(rb) if (ctx.res.resolve_callee(c, rb) or ("", ""))[1].endswith("Balancer.__run_pipeline")]
+    ctx.require(pcalls, "__rebalance_batch no longer calls __run_pipeline")
+    batch_p = rb.params[1] if len(rb.params) > 1 else None
+
+    def is_copy_of_batch(e) -> bool:
+        if isinstance(e, ast.Name) and e.id == batch_p:
+            return True
+        if isinstance(e, ast.Call) and unparse(e.func).split(".")[-1] in ("deepcopy", "copy", "list") and len(e.args) == 1:
+            return is_copy_of_batch(e.args[0])
+        if isinstance(e, ast.ListComp) and len(e.generators) == 1 and not e.generators[0].ifs and is_copy_of_batch(e.generators[0].iter):
+            el = e.elt
+            tv = e.generators[0].target
+            return isinstance(tv, ast.Name) and ((isinstance(el, ast.Name) and el.id == tv.id) or (isinstance(el, ast.Call) and unparse(el.func).split(".")[-1] in ("deepcopy", "copy", "dict") and len(el.args) == 1 and isinstance(el.args[0], ast.Name) and el.args[0].id == tv.id))
+        return False
+
+    for c in pcalls:
+        arg = c.args[0] if c.args else None
+        # follow plain copies of a local (`rows = tmp`)
+        for _ in range(4):
+            if isinstance(arg, ast.Name) and arg.id != batch_p:
+                d_ = assignments_to(rb, arg.id)
+                if len(d_) == 1 and d_[0][2] is None and isinstance(d_[0][1], ast.Name):
+                    arg = d_[0][1]
+                    continue
+            break
+        ok, why = False, "no rows argument"
+        if arg is not None and is_copy_of_batch(arg):
+            ok, why = True, "a copy of the batch (%s)" % unparse(arg)[:40]
+        elif isinstance(arg, ast.Name):
+            defs = assignments_to(rb, arg.id)
+            if defs and all(i is None and is_copy_of_batch(v) for _s, v, i in defs):
+                # nothing is written into the copy (or its rows) before the pipeline gets it
+                elems = {arg.id}
+                for n in own_nodes(rb.node):
+                    if isinstance(n, (ast.For, ast.comprehension)) and any(isinstance(x, ast.Name) and x.id == arg.id for x in ast.walk(n.iter)):
+                        elems |= {x.id for x in ast.walk(n.target) if isinstance(x, ast.Name)}
+                writes = []
+                for n in own_nodes(rb.node):
+                    if isinstance(n, (ast.Assign, ast.AugAssign)):
+                        for t in (n.targets if isinstance(n, ast.Assign) else [n.target]):
+                            base = t
+                            while isinstance(base, ast.Subscript):
+                                base = base.value
+                            if base is not t and isinstance(base, ast.Name) and base.id in elems:
+                                writes.append(n)
+                    if isinstance(n, ast.Call) and isinstance(n.func, ast.Attribute) and n.func.attr in ("append", "extend", "insert", "update", "setdefault", "pop", "remove") and isinstance(n.func.value, ast.Name) and n.func.value.id in elems:
+                        writes.append(n)
+                ok = not writes
+                why = "a copy of the batch" if ok else "a copy of the batch into which %s is written" % unparse(writes[0])[:50]
+            else:
+                why = "%s, which is not a copy of the batch" % "; ".join(unparse(v)[:40] for _s, v, _i in defs)
+        elif arg is not None:
+            why = "%s, which is not a copy of the batch" % unparse(arg)[:40]
+        ctx.instance("C12-K5", "__run_pipeline receives %s" % why, rb.loc(c), ok=ok)
+        if not ok:
+            ctx.finding("C12-K5", "Balancer.__rebalance_batch:pipeline-input", rb.loc(c), "the pipeline computes the cached entry from %s: the entry then depends on something the cache key does not cover, and a later hit returns a result that a fresh run would not produce" % why)
